@@ -93,6 +93,11 @@ CHECKS = {
             "Part 1: every output of <=3 (quick) / <=4 (thorough) symbols from {a, LF, 2-byte, 4-byte, 0xFF} in all 2^(n-1) chunk compositions x 7 preview limits x 5 artifact caps, plus 7 large outputs around the 8 KiB read size x 8 preview limits x 5 caps: stored bytes must be the byte prefix up to the cap, the artifact must be named by the sha256 of its bytes, bytes/truncated/total exact, preview a prefix within its limit. Part 2: 6 blobs x every (offset, max_bytes) and sequential pages of 1..6 bytes through artifact_fetch. Part 3: 11 pipe-mode task commands x 3-5 cancel moments through POST /tasks: spawn first, running at most once, exactly one terminal status last, cancel request before cancellation, 0..n-1 numbering, byte-exact stored stdout, consecutive delta ranges.",
             "PTY tasks excluded (no PTY in this sandbox); task cancel moments are wall-clock points (judged by the schedule-independent lifecycle grammar only), the cancel-at-every-hook-point gating of the design is not built; the task pump is exercised through real processes, not a scripted reader.",
             "DESIGN.md §3 C17"),
+    "C18": ("S", "model_checking",
+            "stateless schedule exploration (engine S) of 2-3 contenders running the recovery protocol over the real authority-lock primitives from every leftover state",
+            "2 (thorough: also 3) contenders x leftover states {no files, dead owner's lock, dead owner's lock+meta, dead owner's meta only}; each runs acquire / meta+reachability / lock record / liveness / stale cleanup / retry over the real primitives (per-actor pid and liveness through cfg(rip_verif) seams) and then holds the role; all interleavings at the file-system step hooks with <=2 (quick) / <=3 (thorough) preemptions; at most one contender may ever hold the role, the holder's lock.json and meta.json must name it, and some contender must get a store whose previous owner is gone.",
+            "The server's private async recovery loop is restated in the harness (same control flow over the public primitives; not bound by a trace-equality run); the 1 s corrupt-lock grace branch, pid reuse, clock skew and the rip-cli client loop are not explored; one known finding (stale-cleanup check-then-rename).",
+            "DESIGN.md §3 C18"),
     "C19": ("P", "exploration",
             "full product of secret-supply configurations x run outcomes, one subprocess with a cleared environment per configuration, through the production router against the scripted provider; canary search over every persisted byte, response and process output",
             "12 secret sources (three env variables incl. the endpoint-substring selected ones, inline api_key in the global / RIP_CONFIG / project / parent-project layer, {env: NAME} indirection, secret header, header + key, malformed header value / name) x 5 outcomes (success with a tool call, HTTP 401 echoing the request body, transport error, HTTP 500, tool failure) x request dump (thorough: on/off) x per-request overrides (thorough); the engine is built with OpenResponsesConfig::from_env() as serve does; the canary (raw, base64, percent-encoded) must be absent from every file under the data dir and workspace .rip/, /config/doctor, the session frames, error responses and stdout/stderr; the provider must have received it (vacuity guard); doctor must report presence and source.",
